@@ -30,7 +30,7 @@ inline Plan Gen(uint64_t seed)
       for (int i=0; i<n; i++)
       {
          const uint32_t k = wl.below(20); const int c = (int) wl.below((uint32_t) clients);
-         if (k < 12) x += " S" + I(c) + "x" + I(1 + wl.below(4)); else if (k < 15) x += " U" + I(c); else if (k < 17) x += " R" + I(c); else x += " Y";
+         if (k < 12) x += " S" + I(c) + "x" + I(wl.oneIn(12) ? (9 + (int) wl.below(12)) : (1 + (int) wl.below(4))); else if (k < 15) x += " U" + I(c); else if (k < 17) x += " R" + I(c); else x += " Y";
       }
       p.push_back(x);
    }
